@@ -11,7 +11,8 @@ RULE = ("every 1- and 2-shell basis over l in 0..4 x coordinate type x M in {1,2
         "bohr of the origin) and 3-shell bases over the shape ladder with all 8 type patterns; the library's "
         "evaluate_basis / evaluate_deriv_basis / evaluate_density / evaluate_posdef_kinetic_energy_density are summed "
         "on a uniform grid (h=0.2 on [-9,9]^3, 753571 points, trapezoid rule) and compared with overlap_integral, "
-        "moment_integral (10 order triples of total order <= 2), kinetic_energy_integral, tr(gamma S), tr(gamma T). "
+        "moment_integral (10 order triples of total order <= 2), kinetic_energy_integral, tr(gamma S), tr(gamma T) - "
+        "the last two also for linearly transformed orbitals with a non-diagonal density matrix (every second basis). "
         "Both sides are library outputs; no reference model is involved. Non-trivial = analytic array not identically "
         "zero.")
 ASSUMPTIONS = ["uniform-grid trapezoid rule converges geometrically for these exponents (checked: the h=0.25 error of one "
@@ -78,7 +79,7 @@ def build(cfg):
     return shells
 
 
-def integrate(g, n, gam, h, gam2=None):
+def integrate(g, n, gam, h, gam2=None, trf=None):
     from gbasis.evals.density import (evaluate_density, evaluate_density_using_evaluated_orbs,
                                       evaluate_posdef_kinetic_energy_density)
     from gbasis.evals.eval import evaluate_basis
@@ -93,6 +94,8 @@ def integrate(g, n, gam, h, gam2=None):
     rho = 0.0
     rho2 = 0.0
     tp = 0.0
+    rhoT = 0.0
+    tpT = 0.0
     calls = 0
     X, Y = np.meshgrid(ax, ax, indexing="ij")
     WX, WY = np.meshgrid(w1, w1, indexing="ij")
@@ -117,6 +120,13 @@ def integrate(g, n, gam, h, gam2=None):
             rho2 += float(np.sum(evaluate_density_using_evaluated_orbs(gam2, P) * w))
         tp += float(np.sum(evaluate_posdef_kinetic_energy_density(gam, g, pts) * w))
         calls += 6
+        if trf is not None:  # the same two fields for transformed orbitals with a non-diagonal density matrix
+            gamT, Tm = trf
+            rhoT += float(np.sum(evaluate_density(gamT, g, pts, transform=Tm) * w))
+            tpT += float(np.sum(evaluate_posdef_kinetic_energy_density(gamT, g, pts, transform=Tm) * w))
+            calls += 2
+    if trf is not None:
+        return S, Mo, T, rho, tp, calls, rho2, rhoT, tpT
     return S, Mo, T, rho, tp, calls, rho2
 
 
@@ -137,7 +147,14 @@ def evaluate(cfg):
     Ma = moment_integral(g, np.zeros(3), np.array(ORD2))
     o.call(3)
     gam2 = (X + X.T) / 2  # symmetric, indefinite (difference / spin density)
-    S, Mo, T, rho, tp, calls, rho2 = integrate(g, n, gam, 0.2, gam2)
+    trf = None
+    if sum(cfg["l"]) % 2 == 0 and n > 1:
+        k = max(2, n - 1)
+        Tm = np.array([hvec("gridT%d" % r, n, -1, 1) for r in range(k)])
+        Y = np.array([hvec("gridY%d" % r, k, -1, 1) for r in range(k)])
+        trf = (Y @ Y.T, Tm)
+    res = integrate(g, n, gam, 0.2, gam2, trf)
+    S, Mo, T, rho, tp, calls, rho2 = res[:7]
     o.call(calls)
     td = np.sqrt(np.abs(np.diag(Ta)))
     tsc = np.outer(td, td)
@@ -152,6 +169,16 @@ def evaluate(cfg):
           np.array(rho2), np.array(np.sum(gam2 * Sa)), TOL, float(np.sum(np.abs(gam2) * np.abs(Sa))), key="grid-density-indefinite")
     o.cmp("grid posdef KED == tr(gamma T)", np.array(tp), np.array(np.sum(gam * Ta)), TOL,
           float(np.sum(np.abs(gam) * tsc)), key="grid-ked")
+    if trf is not None:
+        gamT, Tm = trf
+        ST = overlap_integral(g, transform=Tm)
+        TT = kinetic_energy_integral(g, transform=Tm)
+        o.call(2)
+        aT = np.abs(Tm)
+        o.cmp("grid density of transformed orbitals == tr(gamma S_T)", np.array(res[7]), np.array(np.sum(gamT * ST)), TOL,
+              float(np.sum(np.abs(gamT) * (aT @ np.abs(Sa) @ aT.T))), key="grid-density-transformed")
+        o.cmp("grid posdef KED of transformed orbitals == tr(gamma T_T)", np.array(res[8]), np.array(np.sum(gamT * TT)), TOL,
+              float(np.sum(np.abs(gamT) * (aT @ tsc @ aT.T))), key="grid-ked-transformed")
     if cfg["kind"] == "convergence":
         S2, _, T2, _, _, c2, _ = integrate(g, n, gam, 0.25)
         o.call(c2)
